@@ -1275,7 +1275,7 @@ int fp18_test_cyc(const fp18_t a) {
 		fp18_mul(t0, t0, a);
 		fp18_frb(t1, a, 3);
 
-		result = ((fp18_cmp(t0, t1) == RLC_EQ) ? 1 : 0);
+		result = ((fp18_cmp(t0, t1) == RLC_EQ) && !fp18_is_zero(a) ? 1 : 0);
 	}
 	RLC_CATCH_ANY {
 		RLC_THROW(ERR_CAUGHT);
@@ -1806,7 +1806,7 @@ int fp24_test_cyc(const fp24_t a) {
 		fp24_mul(t0, t0, a);
 		fp24_frb(t1, a, 4);
 
-		result = ((fp24_cmp(t0, t1) == RLC_EQ) ? 1 : 0);
+		result = ((fp24_cmp(t0, t1) == RLC_EQ) && !fp24_is_zero(a) ? 1 : 0);
 	}
 	RLC_CATCH_ANY {
 		RLC_THROW(ERR_CAUGHT);
@@ -2336,7 +2336,7 @@ int fp48_test_cyc(const fp48_t a) {
 		fp48_mul(t0, t0, a);
 		fp48_frb(t1, a, 8);
 
-		result = ((fp48_cmp(t0, t1) == RLC_EQ) ? 1 : 0);
+		result = ((fp48_cmp(t0, t1) == RLC_EQ) && !fp48_is_zero(a) ? 1 : 0);
 	}
 	RLC_CATCH_ANY {
 		RLC_THROW(ERR_CAUGHT);
@@ -2866,7 +2866,7 @@ int fp54_test_cyc(const fp54_t a) {
 		fp54_frb(t0, a, 18);
 		fp54_mul(t0, t0, a);
 		fp54_frb(t1, a, 9);
-		result = ((fp54_cmp(t0, t1) == RLC_EQ) ? 1 : 0);
+		result = ((fp54_cmp(t0, t1) == RLC_EQ) && !fp54_is_zero(a) ? 1 : 0);
 	}
 	RLC_CATCH_ANY {
 		RLC_THROW(ERR_CAUGHT);
